@@ -1,7 +1,1281 @@
-//! C03 — node-level correspondence harness (stub; see /verif/AGENT_GUIDE.md).
+//! C03 — a block joins the main chain iff it meets every consensus rule in its context.
+//!
+//! Drives a real node (`Shared` + the three chain-service threads) the way a miner does:
+//! `HeaderVerifier` on the snapshot (as `rpc/src/module/miner.rs::submit_block`), then
+//! `ChainController::blocking_process_block`.  From random valid contexts (random epoch length,
+//! proposal window, median count, limits; chains with proposals, commits, uncles) it builds, for
+//! each rule, a block exactly on the valid side of the boundary and the single-rule violations on
+//! the invalid side, by rebuilding blocks from a valid one with the ckb-types builders.
+//!
+//! Protocol (model side: lean/CkbVerif/Driver/C03.lean):
+//!   cfg k=v …                consensus parameters differing from the generated defaults
+//!   genesis id=0 ts=… …      the genesis block
+//!   blk <id> k=v …           a block: header fields, body features, and the oracle values of its
+//!                            own context (expected epoch/target/dao/reward/chain root, resolution)
+//!   submit <id> now=<ms>     → `<attached|stored|known|err CLASS> tip=<id> st=<valid|stored|invalid|unknown>`
+//!
+//! Oracle (independent of the model): a block the generator built as valid and heaviest is
+//! attached and becomes the tip; a block built with a single-rule violation is rejected, and the
+//! node's tip / total difficulty / epoch / proposal view are unchanged by the rejection; a branch
+//! containing a violating block never becomes canonical; the stored body of an attached block
+//! never changes.
+//!
+//! Replay: a case is regenerated from its `case <n> seed=<s>` line (the op lines are abstract
+//! features of real blocks and are re-derived).
 use crate::common::*;
+use crate::node::*;
+use ckb_chain_spec::consensus::{Consensus, ConsensusBuilder, ProposalWindow, build_genesis_epoch_ext};
+use ckb_dao::DaoCalculator;
+use ckb_dao_utils::genesis_dao_data;
+use ckb_reward_calculator::RewardCalculator;
+use ckb_shared::block_status::BlockStatus;
+use ckb_store::{ChainDB, ChainStore};
+use ckb_test_chain_utils::{always_success_cell, create_always_success_tx};
+use ckb_types::core::cell::{BlockCellProvider, HeaderChecker, OverlayCellProvider, ResolvedTransaction, resolve_transaction};
+use ckb_types::core::{
+    BlockBuilder, BlockView, Capacity, EpochNumberWithFraction, ScriptHashType, TransactionBuilder, TransactionView,
+    UncleBlockView, capacity_bytes,
+};
+use ckb_types::packed::{self, Byte32, CellInput, CellOutput, OutPoint, ProposalShortId, Script};
+use ckb_types::prelude::*;
+use ckb_types::utilities::DIFF_TWO;
+use ckb_types::utilities::merkle_mountain_range::ChainRootMMR;
+use ckb_types::{bytes::Bytes, h256};
+use ckb_merkle_mountain_range::leaf_index_to_mmr_size;
+use ckb_verification::{HeaderVerifier, NonContextualBlockTxsVerifier};
+use ckb_verification_traits::Verifier;
+use std::collections::{HashMap, HashSet};
+use std::path::Path;
+use std::sync::Arc;
 
-pub fn run(_opts: &Opts) {
-    eprintln!("C03: harness not implemented");
-    std::process::exit(2);
+const FUTURE: u64 = 15_000; // only used to pick `now`; the model reads the generated constant
+
+#[derive(Clone, Debug)]
+struct CaseCfg {
+    epoch_len: u64,
+    window: (u64, u64),
+    median: usize,
+    max_props: u64,
+    max_bytes: u64,
+    max_cycles: u64,
+    defaults: bool,
+}
+
+fn consensus_for(cc: &CaseCfg, genesis_cells: u64) -> Consensus {
+    let (_, _, always_success_script) = always_success_cell();
+    let tx = create_always_success_tx();
+    let transactions: Vec<TransactionView> = (0..genesis_cells)
+        .map(|i| {
+            TransactionBuilder::default()
+                .input(CellInput::new(OutPoint::null(), 0))
+                .output(CellOutput::new_builder().capacity(capacity_bytes!(50_000)).lock(always_success_script.clone()).build())
+                .output_data(Bytes::from(i.to_le_bytes().to_vec()))
+                .build()
+        })
+        .collect();
+    let mut all: Vec<&TransactionView> = vec![&tx];
+    all.extend(transactions.iter());
+    let dao = genesis_dao_data(all).unwrap();
+    let genesis_block = BlockBuilder::default()
+        .dao(dao)
+        .compact_target(DIFF_TWO)
+        .epoch(EpochNumberWithFraction::new_unchecked(0, 0, 0))
+        .timestamp(1_000_000u64)
+        .transaction(tx)
+        .transactions(transactions)
+        .build();
+    let epoch_reward = capacity_bytes!(1_917_808);
+    let duration_target = 8 * cc.epoch_len;
+    let genesis_epoch_ext = build_genesis_epoch_ext(epoch_reward, DIFF_TWO, cc.epoch_len, duration_target, (1, 40));
+    let mut b = ConsensusBuilder::new(genesis_block, genesis_epoch_ext)
+        .initial_primary_epoch_reward(epoch_reward)
+        .epoch_duration_target(duration_target)
+        .permanent_difficulty_in_dummy(true)
+        .cellbase_maturity(EpochNumberWithFraction::new(0, 0, 1));
+    if !cc.defaults {
+        b = b
+            .tx_proposal_window(ProposalWindow(cc.window.0, cc.window.1))
+            .median_time_block_count(cc.median)
+            .max_block_proposals_limit(cc.max_props)
+            .max_block_bytes(cc.max_bytes)
+            .max_block_cycles(cc.max_cycles);
+    }
+    b.build()
+}
+
+#[derive(Default)]
+struct Ids {
+    blocks: HashMap<Byte32, u64>,
+    props: HashMap<ProposalShortId, u64>,
+    txs: HashMap<Byte32, u64>,
+}
+
+impl Ids {
+    fn block(&mut self, h: &Byte32) -> u64 {
+        let n = self.blocks.len() as u64;
+        *self.blocks.entry(h.clone()).or_insert(n)
+    }
+    fn prop(&mut self, p: &ProposalShortId) -> u64 {
+        let n = self.props.len() as u64 + 1;
+        *self.props.entry(p.clone()).or_insert(n)
+    }
+    fn tx(&mut self, h: &Byte32) -> u64 {
+        let n = self.txs.len() as u64 + 1;
+        *self.txs.entry(h.clone()).or_insert(n)
+    }
+}
+
+fn list(v: &[u64]) -> String {
+    if v.is_empty() { "-".into() } else { v.iter().map(|x| x.to_string()).collect::<Vec<_>>().join(",") }
+}
+
+fn u256_to_u64(x: &ckb_types::U256) -> u64 {
+    x.0[0]
+}
+
+fn b01(b: bool) -> u8 {
+    b as u8
+}
+
+struct MainChainHeaders<'a> {
+    db: &'a ChainDB,
+}
+impl HeaderChecker for MainChainHeaders<'_> {
+    fn check_valid(&self, block_hash: &Byte32) -> Result<(), ckb_types::core::error::OutPointError> {
+        match self.db.get_block_number(block_hash) {
+            Some(n) if self.db.get_block_hash(n).as_ref() == Some(block_hash) => Ok(()),
+            _ => Err(ckb_types::core::error::OutPointError::InvalidHeader(block_hash.clone())),
+        }
+    }
+}
+
+fn hash_type_ok(s: &Script) -> bool {
+    match ScriptHashType::try_from(s.hash_type()) {
+        Ok(ht) => {
+            let v: u8 = ht.into();
+            ckb_constant::consensus::ENABLED_SCRIPT_HASH_TYPE.contains(&v)
+        }
+        Err(_) => false,
+    }
+}
+
+/// One `blk` line: the abstraction of a real block. `db` is a reference store holding exactly the
+/// chain genesis..=parent (a plain ChainDB fed by the block builder, not the node under test).
+fn describe(ids: &mut Ids, consensus: &Consensus, db: Option<&ChainDB>, cyc: u64, blk: &BlockView) -> String {
+    let id = ids.block(&blk.hash());
+    let parent = ids.block(&blk.parent_hash());
+    let ep = blk.epoch();
+    let mut s = format!(
+        "blk {} parent={} num={} ep={}/{}/{} ts={} tgt={} work={} pow=1",
+        id,
+        parent,
+        blk.number(),
+        ep.number(),
+        ep.index(),
+        ep.length(),
+        blk.timestamp(),
+        blk.compact_target(),
+        u256_to_u64(&blk.header().difficulty()),
+    );
+    let props: Vec<u64> = blk.data().proposals().into_iter().map(|p| ids.prop(&p)).collect();
+    s += &format!(" props={} bytes={}", list(&props), blk.data().serialized_size_without_uncle_proposals());
+    let txs = blk.transactions();
+    let ncb = txs.iter().filter(|t| t.is_cellbase()).count();
+    s += &format!(" ncb={}", ncb);
+    if let Some(cb) = txs.first() {
+        let wit_ok = cb
+            .witnesses()
+            .get(0)
+            .and_then(|w| packed::CellbaseWitness::from_slice(&w.raw_data()).ok())
+            .map(|cw| hash_type_ok(&cw.lock()))
+            .unwrap_or(false);
+        let since: u64 = cb.inputs().get(0).map(|i| i.since().unpack()).unwrap_or(0);
+        s += &format!(
+            " cbfirst={} cbouts={} cbdatas={} cbdataempty={} cbwit={} cbnotype={} cblock={} cbsince={}",
+            b01(cb.is_cellbase()),
+            cb.outputs().len(),
+            cb.outputs_data().len(),
+            b01(cb.outputs_data().get(0).map(|d| d.is_empty()).unwrap_or(true)),
+            b01(wit_ok),
+            b01(!cb.outputs().into_iter().any(|o| o.type_().is_some())),
+            b01(cb.outputs().into_iter().all(|o| hash_type_ok(&o.lock()))),
+            since,
+        );
+    } else {
+        s += " cbfirst=0 cbouts=0 cbdatas=0";
+    }
+    let txids: Vec<u64> = txs.iter().map(|t| ids.tx(&t.hash())).collect();
+    s += &format!(
+        " txs={} txroot={} phash={} txsnc={}",
+        list(&txids),
+        b01(blk.transactions_root() == blk.calc_transactions_root()),
+        b01(blk.proposals_hash() == blk.calc_proposals_hash()),
+        b01(NonContextualBlockTxsVerifier::new(consensus).verify(blk).is_ok()),
+    );
+    let uncles: Vec<String> = blk
+        .uncles()
+        .into_iter()
+        .map(|u| {
+            let ups: Vec<u64> = u.data().proposals().into_iter().map(|p| ids.prop(&p)).collect();
+            format!(
+                "{}:{}:{}:{}:{}:{}:{}:1",
+                ids.block(&u.hash()),
+                ids.block(&u.data().header().raw().parent_hash()),
+                u.number(),
+                u.epoch().number(),
+                u.compact_target(),
+                list(&ups),
+                b01(u.proposals_hash() == u.data().as_reader().calc_proposals_hash()),
+            )
+        })
+        .collect();
+    s += &format!(" uncles={}", if uncles.is_empty() { "-".to_string() } else { uncles.join(";") });
+    let commit: Vec<u64> = txs.iter().skip(1).map(|t| ids.prop(&t.proposal_short_id())).collect();
+    s += &format!(" commit={}", list(&commit));
+    s += &format!(
+        " xf={} extlen={} xhash={}",
+        blk.data().count_extra_fields(),
+        blk.extension().map(|e| e.len().to_string()).unwrap_or("none".into()),
+        b01(blk.calc_extra_hash().extra_hash() == blk.extra_hash()),
+    );
+    // oracles of the block's own context, computed on the reference store of the parent chain
+    if let Some(db) = db {
+        if let Some(parent_header) = db.get_block_header(&blk.parent_hash()) {
+            let loader = db.borrow_as_data_loader();
+            let epoch = consensus.next_epoch_ext(&parent_header, &loader).expect("epoch").epoch();
+            let xep = epoch.number_with_fraction(blk.number());
+            s += &format!(" xep={}/{}/{} xtgt={}", xep.number(), xep.index(), xep.length(), epoch.compact_target());
+            // chain root
+            let root_ok = match blk.extension() {
+                Some(e) if e.len() >= 32 => {
+                    let txn = db.begin_transaction();
+                    let mmr = ChainRootMMR::new(leaf_index_to_mmr_size(parent_header.number()), &txn);
+                    let root = mmr.get_root().expect("chain root").calc_mmr_hash();
+                    root.as_slice() == &e.raw_data()[..32]
+                }
+                _ => false,
+            };
+            s += &format!(" root={}", b01(root_ok));
+            // resolution, dao
+            let txn = db.begin_transaction();
+            let mut seen = HashSet::new();
+            let hc = MainChainHeaders { db };
+            let rtxs: Option<Vec<Arc<ResolvedTransaction>>> = match BlockCellProvider::new(blk) {
+                Ok(bcp) => {
+                    let cp = OverlayCellProvider::new(&bcp, &txn);
+                    txs.iter().map(|tx| resolve_transaction(tx.clone(), &mut seen, &cp, &hc).map(Arc::new).ok()).collect()
+                }
+                Err(_) => None,
+            };
+            match &rtxs {
+                Some(rtxs) if !rtxs.is_empty() => {
+                    let dao = DaoCalculator::new(consensus, &loader).dao_field(rtxs.iter().map(AsRef::as_ref), &parent_header);
+                    match dao {
+                        Ok(d) => s += &format!(" resolve=1 daocalc=1 dao={}", b01(d == blk.header().dao())),
+                        Err(_) => s += " resolve=1 daocalc=0 dao=0",
+                    }
+                }
+                _ => s += " resolve=0",
+            }
+            // reward
+            let (target_lock, reward) = RewardCalculator::new(consensus, db).block_reward_to_finalize(&parent_header).expect("reward");
+            let probe = CellOutput::new_builder().capacity(reward.total).lock(target_lock.clone()).build();
+            let lack = probe.is_lack_of_capacity(Capacity::zero()).unwrap_or(true);
+            let (cbcap, lockeq) = match txs.first() {
+                Some(cb) => (
+                    cb.outputs_capacity().map(|c| c.as_u64()).unwrap_or(0),
+                    cb.outputs().get(0).map(|o| o.lock() == target_lock).unwrap_or(true),
+                ),
+                None => (0, true),
+            };
+            s += &format!(" rewlack={} cbcap={} xrew={} cblockeq={}", b01(lack), cbcap, reward.total.as_u64(), b01(lockeq));
+        }
+    }
+    // script execution is an oracle: every non-cellbase transaction spends always-success cells
+    s += &format!(" txsok=1 cycles={}", cyc * (txs.len().saturating_sub(1)) as u64);
+    s
+}
+
+/// canonical error class of a real verification error (by the error's variant names)
+fn classify(dbg: &str) -> &'static str {
+    const TABLE: &[(&str, &str)] = &[
+        ("InvalidNonce", "pow"),
+        ("UnknownParent", "badparent"),
+        ("InvalidParent", "badparent"),
+        ("is invalid, so block", "badparent"),
+        ("previously verified failed", "badparent"),
+        ("BlockTimeTooOld", "time-too-old"),
+        ("BlockTimeTooNew", "time-too-new"),
+        ("Malformed", "epoch-malformed"),
+        ("NonContinuous", "epoch-noncontinuous"),
+        ("NumberMismatch", "epoch-mismatch"),
+        ("TargetMismatch", "target-mismatch"),
+        ("NumberError", "number"),
+        ("ExceededMaximumProposalsLimit", "proposals-limit"),
+        ("ExceededMaximumBlockBytes", "block-bytes"),
+        ("InvalidQuantity", "cb-quantity"),
+        ("InvalidPosition", "cb-position"),
+        ("InvalidOutputQuantity", "cb-output-quantity"),
+        ("InvalidOutputData", "cb-output-data"),
+        ("InvalidWitness", "cb-witness"),
+        ("InvalidTypeScript", "cb-type-script"),
+        ("InvalidOutputLock", "cb-output-lock"),
+        ("InvalidInput", "cb-input"),
+        ("InvalidRewardAmount", "reward-amount"),
+        ("InvalidRewardTarget", "reward-target"),
+        ("CommitTransactionDuplicate", "tx-duplicate"),
+        ("ProposalTransactionDuplicate", "proposal-duplicate"),
+        ("ProposalTransactionsHash", "proposals-hash"),
+        ("TransactionsRoot", "tx-root"),
+        ("OverCount", "uncles-overcount"),
+        ("InvalidTarget", "uncle-target"),
+        ("InvalidDifficultyEpoch", "uncle-epoch"),
+        ("InvalidNumber", "uncle-number"),
+        ("DescendantLimit", "uncle-descendant"),
+        ("DoubleInclusion", "uncle-double-inclusion"),
+        ("ProposalsHash", "uncle-proposals-hash"),
+        ("ProposalDuplicate", "uncle-proposal-duplicate"),
+        ("Duplicate", "uncle-duplicate"),
+        ("AncestorNotFound", "commit-ancestor"),
+        ("Commit(Invalid)", "commit-invalid"),
+        ("InvalidDAO", "dao"),
+        ("NoBlockExtension", "no-extension"),
+        ("UnknownFields", "unknown-fields"),
+        ("EmptyBlockExtension", "empty-extension"),
+        ("ExceededMaximumBlockExtensionBytes", "extension-too-long"),
+        ("InvalidBlockExtension", "invalid-extension"),
+        ("InvalidChainRoot", "chain-root"),
+        ("InvalidExtraHash", "extra-hash"),
+        ("ExceededMaximumCycles", "cycles"),
+        ("BlockTransactions", "txs"),
+    ];
+    for (pat, cls) in TABLE {
+        if dbg.contains(pat) {
+            return cls;
+        }
+    }
+    "other"
+}
+
+#[derive(Clone, Copy, PartialEq, Debug)]
+enum Intent {
+    /// valid and heaviest: must be attached
+    Valid,
+    /// single-rule violation: must be rejected, state unchanged
+    Invalid,
+    /// valid or contextually-invalid block that is not heavier than the tip: stored unverified
+    Side,
+    /// heaviest block of a branch that contains a violating block: must be rejected, state unchanged
+    Doomed,
+    /// an already attached block submitted again (possibly with a different body under the same header)
+    Resubmit,
+}
+
+struct Case<'a> {
+    out: &'a mut Out,
+    rng: Rng,
+    node: Node,
+    builder: ChainBuilder,
+    consensus: Consensus,
+    cc: CaseCfg,
+    ids: Ids,
+    cyc: u64,
+    tip: Byte32,
+    /// blocks the generator built with a violation (and everything built on top of them)
+    bad: HashSet<Byte32>,
+    described: HashSet<Byte32>,
+    /// unused sibling blocks whose parent is on the main chain (uncle candidates)
+    pool: Vec<BlockView>,
+    /// spendable cells
+    cells: Vec<(OutPoint, u64)>,
+    /// proposed, not yet committed: (tx, height of the proposing block)
+    pending: Vec<(TransactionView, u64)>,
+    salt: u64,
+    rules_hit: HashSet<String>,
+}
+
+fn state_digest(node: &Node) -> String {
+    let snap = node.shared.snapshot();
+    let mut set: Vec<String> = snap.proposals().set().iter().map(|p| format!("{:?}", p)).collect();
+    set.sort();
+    let mut gap: Vec<String> = snap.proposals().gap().iter().map(|p| format!("{:?}", p)).collect();
+    gap.sort();
+    format!(
+        "{:#x}|{:#x}|{}|{:?}|{:?}|{:?}",
+        snap.tip_hash(),
+        snap.total_difficulty(),
+        snap.epoch_ext().number(),
+        node.store().get_tip_header().map(|h| h.hash()),
+        set,
+        gap
+    )
+}
+
+impl Case<'_> {
+    fn next_salt(&mut self) -> u64 {
+        self.salt += 1;
+        self.salt
+    }
+
+    fn height(&self) -> u64 {
+        self.builder.block(&self.tip).number()
+    }
+
+    fn status(&self, h: &Byte32) -> &'static str {
+        let st = self.node.shared.get_block_status(h);
+        if st == BlockStatus::BLOCK_INVALID {
+            "invalid"
+        } else if st.contains(BlockStatus::BLOCK_VALID) {
+            "valid"
+        } else if st.contains(BlockStatus::BLOCK_STORED) {
+            "stored"
+        } else {
+            "unknown"
+        }
+    }
+
+    /// emit the `blk` lines of blocks that share the parent `parent`
+    fn describe_all(&mut self, parent: &Byte32, blocks: &[&BlockView]) {
+        let todo: Vec<&BlockView> = blocks.iter().filter(|b| !self.described.contains(&b.hash())).cloned().collect();
+        if todo.is_empty() {
+            return;
+        }
+        let known = self.builder.blocks.contains_key(parent);
+        let lines: Vec<String> = if known {
+            let db = self.builder.replay_store(parent);
+            todo.iter().map(|b| describe(&mut self.ids, &self.consensus, Some(db), self.cyc, b)).collect()
+        } else {
+            todo.iter().map(|b| describe(&mut self.ids, &self.consensus, None, self.cyc, b)).collect()
+        };
+        for (b, l) in todo.iter().zip(lines) {
+            self.described.insert(b.hash());
+            self.out.op(&l, "ok");
+        }
+    }
+
+    /// HeaderVerifier on the snapshot, parent-known check, then the chain service — `submit_block`
+    fn submit(&mut self, blk: &BlockView, now: u64, intent: Intent, rule: &str) {
+        let parent = blk.parent_hash();
+        self.describe_all(&parent, &[blk]);
+        let id = self.ids.block(&blk.hash());
+        let before = state_digest(&self.node);
+        let tip_before = self.node.tip_hash();
+        let guard = ckb_systemtime::faketime();
+        guard.set_faketime(now);
+        let verdict: Result<bool, String> = {
+            let guard_snapshot = self.node.shared.snapshot();
+            let snapshot: &ckb_snapshot::Snapshot = &guard_snapshot;
+            match HeaderVerifier::new(snapshot, &self.consensus).verify(&blk.header()) {
+                Err(e) => Err(format!("{:?}", e)),
+                Ok(()) => {
+                    if snapshot.get_block_header(&parent).is_none() {
+                        Err("UnknownParent(rpc)".to_string())
+                    } else {
+                        self.node.controller().blocking_process_block(Arc::new(blk.clone())).map_err(|e| format!("{:?}", e))
+                    }
+                }
+            }
+        };
+        drop(guard);
+        let after = state_digest(&self.node);
+        let tip_after = self.node.tip_hash();
+        let st = self.status(&blk.hash());
+        let v = match &verdict {
+            Ok(true) => {
+                if tip_after == blk.hash() { "attached".to_string() } else { "stored".to_string() }
+            }
+            Ok(false) => "known".to_string(),
+            Err(d) => {
+                let c = classify(d);
+                if c == "other" {
+                    self.out.count(&format!("unclassified:{}", &d[..d.len().min(80)]));
+                }
+                format!("err {}", c)
+            }
+        };
+        let tip_id = self.ids.block(&tip_after);
+        self.out.op(&format!("submit {} now={}", id, now), &format!("{} tip={} st={}", v, tip_id, st));
+        self.out.count(&format!("{:?}:{}", intent, v));
+        self.rules_hit.insert(format!("{}:{:?}", rule, intent));
+        // ---- oracle on the implementation alone
+        match intent {
+            Intent::Valid => {
+                if !(verdict == Ok(true) && tip_after == blk.hash() && st == "valid") {
+                    self.out.oracle_fail("valid-block-refused", &format!("rule={} block built valid and heaviest was not attached: {:?} st={}", rule, verdict, st));
+                }
+            }
+            Intent::Invalid | Intent::Doomed => {
+                if verdict.is_ok() {
+                    self.out.oracle_fail("violating-block-accepted", &format!("rule={} verdict={:?}", rule, verdict));
+                }
+                if before != after || tip_before != tip_after {
+                    self.out.oracle_fail("rejection-changed-state", &format!("rule={} before={} after={}", rule, before, after));
+                }
+                if st == "valid" {
+                    self.out.oracle_fail("violating-block-accepted", &format!("rule={} status valid", rule));
+                }
+            }
+            Intent::Side => {
+                if before != after {
+                    self.out.oracle_fail("side-block-changed-state", &format!("rule={} before={} after={}", rule, before, after));
+                }
+            }
+            Intent::Resubmit => {
+                if before != after {
+                    self.out.oracle_fail("resubmit-changed-state", &format!("rule={}", rule));
+                }
+            }
+        }
+        if verdict.is_ok() && tip_after == blk.hash() {
+            self.tip = blk.hash();
+        }
+    }
+
+    /// no violating block (nor a descendant of one) is on the main chain; attached bodies are intact
+    fn check_main_chain(&mut self) {
+        let store = self.node.store();
+        let tip = self.node.tip();
+        let mut h = tip.hash();
+        loop {
+            if self.bad.contains(&h) {
+                self.out.oracle_fail("violating-block-canonical", &format!("block {:#x} is on the main chain", h));
+            }
+            let b = match store.get_block(&h) {
+                Some(b) => b,
+                None => {
+                    self.out.oracle_fail("main-chain-block-missing", &format!("{:#x}", h));
+                    break;
+                }
+            };
+            if b.calc_extra_hash().extra_hash() != b.extra_hash() || b.calc_transactions_root() != b.transactions_root() || b.calc_proposals_hash() != b.proposals_hash() {
+                self.out.oracle_fail("attached-body-not-committed-by-header", &format!("block {} {:#x}: stored body does not match the header's roots", b.number(), h));
+            }
+            if b.number() == 0 {
+                break;
+            }
+            h = b.parent_hash();
+        }
+    }
+}
+
+// ------------------------------------------------------------------------------------------------
+// block surgery
+// ------------------------------------------------------------------------------------------------
+
+fn with_cellbase(v: &BlockView, f: impl FnOnce(TransactionBuilder) -> TransactionBuilder) -> BlockView {
+    let mut txs: Vec<TransactionView> = v.transactions();
+    let cb = f(txs[0].as_advanced_builder()).build();
+    txs[0] = cb;
+    v.as_advanced_builder().set_transactions(txs).build()
+}
+
+fn with_txs(v: &BlockView, txs: Vec<TransactionView>) -> BlockView {
+    v.as_advanced_builder().set_transactions(txs).build()
+}
+
+fn edit_raw(v: &BlockView, f: impl FnOnce(packed::RawHeaderBuilder) -> packed::RawHeaderBuilder) -> BlockView {
+    let raw = f(v.data().header().raw().as_builder()).build();
+    let header = v.data().header().as_builder().raw(raw).build();
+    v.data().as_builder().header(header).build().into_view()
+}
+
+fn edit_uncle_raw(u: &UncleBlockView, f: impl FnOnce(packed::RawHeaderBuilder) -> packed::RawHeaderBuilder) -> UncleBlockView {
+    let raw = f(u.data().header().raw().as_builder()).build();
+    let header = u.data().header().as_builder().raw(raw).build();
+    u.data().as_builder().header(header).build().into_view()
+}
+
+fn ext_of_len(v: &BlockView, len: usize) -> Option<packed::Bytes> {
+    let mut bytes = v.extension().map(|e| e.raw_data().to_vec()).unwrap_or_default();
+    bytes.resize(len, 0xab);
+    Some(Bytes::from(bytes).pack())
+}
+
+fn pad_cellbase_witness(v: &BlockView, extra: usize) -> BlockView {
+    with_cellbase(v, |cb| {
+        let (_, _, lock) = always_success_cell();
+        let w = packed::CellbaseWitness::new_builder().lock(lock.clone()).message(Bytes::from(vec![7u8; 8 + extra]).pack()).build();
+        cb.set_witnesses(vec![w.as_bytes().pack()])
+    })
+}
+
+// ------------------------------------------------------------------------------------------------
+// one case
+// ------------------------------------------------------------------------------------------------
+
+fn pick_cfg(rng: &mut Rng, cyc: u64) -> CaseCfg {
+    if rng.chance(1, 5) {
+        // all consensus defaults (median 37, window 2..10, proposals limit 1500 …); epoch length stays short
+        return CaseCfg { epoch_len: rng.range(5, 9), window: (2, 10), median: 37, max_props: 1500, max_bytes: 597_000, max_cycles: 3_500_000_000, defaults: true };
+    }
+    let close = rng.range(1, 3);
+    let far = close + rng.range(1, 4);
+    CaseCfg {
+        epoch_len: rng.range(4, 9),
+        window: (close, far),
+        median: *rng.pick(&[1usize, 2, 3, 4, 5, 11]),
+        max_props: rng.range(2, 5),
+        max_bytes: rng.range(3_000, 5_000),
+        max_cycles: cyc * rng.range(2, 3),
+        defaults: false,
+    }
+}
+
+/// cycles of one always-success input (measured once on a throw-away node; script execution is an oracle)
+fn measure_cycles(base: &Path) -> u64 {
+    let cc = CaseCfg { epoch_len: 10, window: (1, 3), median: 3, max_props: 10, max_bytes: 100_000, max_cycles: 1_000_000_000, defaults: false };
+    let consensus = consensus_for(&cc, 2);
+    let ncfg = NodeCfg::default();
+    let node = Node::start(&base.join("probe-node"), consensus.clone(), &ncfg);
+    let mut b = ChainBuilder::new(consensus.clone(), &base.join("probe-builder"));
+    let cells = genesis_cells(&consensus);
+    let tx = spend_tx(&cells[0..1], 1, 100, 1);
+    let b1 = b.build(&consensus.genesis_hash(), &BlockSpec { proposals: vec![tx.proposal_short_id()], salt: 1, ..Default::default() });
+    let b2 = b.build(&b1.hash(), &BlockSpec { txs: vec![tx.clone()], salt: 2, ..Default::default() });
+    node.process(&b1).expect("probe b1");
+    node.process(&b2).expect("probe b2");
+    let ext = node.store().get_block_ext(&b2.hash()).expect("ext");
+    let cyc = ext.cycles.expect("cycles")[0];
+    node.stop();
+    cyc
+}
+
+fn run_case(out: &mut Out, seed: u64, base: &Path, cyc: u64, steps: usize) {
+    let mut rng = Rng::new(seed);
+    let cc = pick_cfg(&mut rng, cyc);
+    out.begin_case(&format!("seed={}", seed));
+    let consensus = consensus_for(&cc, 24);
+    let ncfg = NodeCfg { with_pool: false, ..Default::default() };
+    let dir = base.join(format!("case-{}", seed));
+    let _ = std::fs::remove_dir_all(&dir);
+    let node = Node::start(&dir.join("node"), consensus.clone(), &ncfg);
+    let builder = ChainBuilder::new(consensus.clone(), &dir.join("builder"));
+    let cells = genesis_cells(&consensus);
+    let mut c = Case {
+        out,
+        rng,
+        node,
+        builder,
+        consensus: consensus.clone(),
+        cc: cc.clone(),
+        ids: Ids::default(),
+        cyc,
+        tip: consensus.genesis_hash(),
+        bad: HashSet::new(),
+        described: HashSet::new(),
+        pool: vec![],
+        cells,
+        pending: vec![],
+        salt: 0,
+        rules_hit: HashSet::new(),
+    };
+    c.builder.max_branch_stores = 4;
+    if cc.defaults {
+        c.out.op("cfg", "ok");
+    } else {
+        c.out.op(
+            &format!("cfg median={} maxprops={} maxbytes={} maxcycles={} close={} far={}", cc.median, cc.max_props, cc.max_bytes, cc.max_cycles, cc.window.0, cc.window.1),
+            "ok",
+        );
+    }
+    let g = consensus.genesis_block().clone();
+    let gid = c.ids.block(&g.hash());
+    c.out.op(&format!("genesis id={} num=0 ts={} ep=0/0/0 tgt={} work={}", gid, g.timestamp(), g.compact_target(), u256_to_u64(&g.header().difficulty())), "ok");
+    c.described.insert(g.hash());
+    for _ in 0..steps {
+        step(&mut c);
+    }
+    c.check_main_chain();
+    let fp = format!("{:?}|{}", cc, c.rules_hit.len());
+    if c.rules_hit.len() >= 6 {
+        c.out.nontrivial(fp);
+    }
+    let Case { node, builder, .. } = c;
+    node.stop();
+    drop(builder);
+    let _ = std::fs::remove_dir_all(&dir);
+}
+
+/// timestamps of the parent chain as `block_median_time` walks them (independent computation)
+fn median_of_parent(c: &Case, parent: &Byte32) -> u64 {
+    let mut ts = vec![];
+    let mut h = parent.clone();
+    for _ in 0..c.consensus.median_time_block_count() {
+        let b = c.builder.block(&h);
+        ts.push(b.timestamp());
+        if b.number() == 0 {
+            break;
+        }
+        h = b.parent_hash();
+    }
+    ts.sort();
+    ts[ts.len() >> 1]
+}
+
+fn fresh_tx(c: &mut Case) -> Option<TransactionView> {
+    if c.cells.is_empty() {
+        return None;
+    }
+    let cell = c.cells.remove(0);
+    let salt = c.next_salt();
+    Some(spend_tx(&[cell], 1, 1000 + salt, salt))
+}
+
+/// a well-formed spend that is never meant to be committed (the cell stays available)
+fn scratch_tx(c: &mut Case) -> Option<TransactionView> {
+    let cell = c.cells.first()?.clone();
+    let salt = c.next_salt();
+    Some(spend_tx(&[cell], 1, 1000 + salt, salt))
+}
+
+/// uncle candidates valid for a block on the current tip: same epoch as the new block, parent on the main chain
+fn valid_uncles(c: &Case, new_epoch: u64, max: usize) -> Vec<BlockView> {
+    let main: HashSet<Byte32> = c.builder.path_to(&c.tip).into_iter().collect();
+    c.pool.iter().filter(|u| u.epoch().number() == new_epoch && main.contains(&u.parent_hash()) && !main.contains(&u.hash())).take(max).cloned().collect()
+}
+
+fn step(c: &mut Case) {
+    let parent = c.tip.clone();
+    let ph = c.builder.block(&parent).clone();
+    let h = ph.number() + 1;
+    let (wc, wf) = (c.consensus.tx_proposal_window().closest(), c.consensus.tx_proposal_window().farthest());
+    let salt = c.next_salt();
+    // ---------------- the valid block of this step
+    let mut spec = BlockSpec { salt, ..Default::default() };
+    // commits: pending txs whose window is open; prefer the edges
+    let mut commit_now = vec![];
+    let mut too_early = vec![];
+    let mut keep = vec![];
+    let mut expired = vec![];
+    for (tx, hp) in c.pending.drain(..) {
+        if hp == u64::MAX {
+            keep.push((tx, hp));
+            continue;
+        }
+        let d = h - hp;
+        if d > wf {
+            expired.push((tx, hp));
+        } else if d < wc {
+            too_early.push((tx.clone(), hp));
+            keep.push((tx, hp));
+        } else if d == wc || d == wf || c.rng.chance(1, 2) {
+            commit_now.push((tx, hp));
+        } else {
+            keep.push((tx, hp));
+        }
+    }
+    c.pending = keep;
+    // keep the block under the size/cycle limits of the case
+    let max_txs = if c.cc.defaults { 4 } else { (c.cc.max_cycles / c.cyc) as usize };
+    while commit_now.len() > max_txs {
+        let x = commit_now.pop().unwrap();
+        if h - x.1 < wf { c.pending.push(x) } else { expired.push(x) }
+    }
+    spec.txs = commit_now.iter().map(|(t, _)| t.clone()).collect();
+    // proposals
+    let n_prop = c.rng.below(3) as usize;
+    let mut new_props = vec![];
+    for _ in 0..n_prop {
+        if (spec.proposals.len() as u64) < c.consensus.max_block_proposals_limit() {
+            if let Some(tx) = fresh_tx(c) {
+                spec.proposals.push(tx.proposal_short_id());
+                new_props.push(tx);
+            }
+        }
+    }
+    // expected epoch of the new block
+    let new_epoch = {
+        let e = ph.epoch();
+        if ph.number() == 0 { 0 } else if e.index() + 1 == e.length() { e.number() + 1 } else { e.number() }
+    };
+    // uncles
+    let n_unc = c.rng.below(3) as usize;
+    let uncles = valid_uncles(c, new_epoch, n_unc);
+    spec.uncles = uncles.iter().map(|u| u.as_uncle()).collect();
+    let v = c.builder.build(&parent, &spec);
+    // a sibling for later use as an uncle (sometimes with proposals, sometimes also stored by the node)
+    let sib = if c.rng.chance(1, 2) {
+        let s2 = c.next_salt();
+        let mut sspec = BlockSpec { salt: s2, ..Default::default() };
+        if c.rng.chance(1, 2) {
+            if let Some(tx) = fresh_tx(c) {
+                sspec.proposals.push(tx.proposal_short_id());
+                // proposed only inside a future uncle
+                c.pending.push((tx, u64::MAX));
+            }
+        }
+        Some(c.builder.build(&parent, &sspec))
+    } else {
+        None
+    };
+    // ---------------- probes
+    let now = v.timestamp() + c.rng.below(3) * 5000;
+    let n_probes = 2 + c.rng.below(3);
+    let mut mutants: Vec<(BlockView, &'static str, u64)> = vec![];
+    for _ in 0..n_probes {
+        if let Some(m) = make_mutant(c, &v, &ph, &too_early, &expired, sib.as_ref()) {
+            mutants.push((m.0, m.1, now));
+        }
+    }
+    {
+        let mut all: Vec<&BlockView> = mutants.iter().map(|m| &m.0).collect();
+        all.push(&v);
+        if let Some(s) = &sib {
+            all.push(s);
+        }
+        c.describe_all(&parent, &all);
+    }
+    for (m, rule, now) in &mutants {
+        c.bad.insert(m.hash());
+        c.submit(m, *now, Intent::Invalid, rule);
+    }
+    // boundary probes that need a valid block of their own (they replace `v` when chosen)
+    let v = boundary_valid(c, v, &ph, &spec, now);
+    c.tip = v.hash();
+    // bookkeeping
+    for (tx, _) in commit_now {
+        let cap: u64 = tx.outputs().get(0).unwrap().capacity().unpack();
+        c.cells.push((OutPoint::new(tx.hash(), 0), cap));
+    }
+    for tx in new_props {
+        c.pending.push((tx, h));
+    }
+    for u in &v.uncles().into_iter().collect::<Vec<_>>() {
+        c.pool.retain(|p| p.hash() != u.hash());
+        // proposals carried by an included uncle are proposed at this height
+        for p in u.data().proposals().into_iter() {
+            for e in c.pending.iter_mut() {
+                if e.1 == u64::MAX && e.0.proposal_short_id() == p {
+                    e.1 = h;
+                }
+            }
+        }
+    }
+    if let Some(s) = sib {
+        if c.rng.chance(1, 2) {
+            c.submit(&s, now, Intent::Side, "sibling");
+        }
+        c.pool.push(s);
+    }
+    // side-branch variant
+    if c.rng.chance(1, 4) && h >= 3 {
+        side_branch(c);
+    }
+    // an attached block submitted again, with the same header and a different body
+    if c.rng.chance(1, 6) {
+        resubmit(c);
+    }
+}
+
+/// the valid side of the boundaries that need their own block; returns the block that became the tip
+fn boundary_valid(c: &mut Case, v: BlockView, ph: &BlockView, spec: &BlockSpec, now: u64) -> BlockView {
+    let parent = ph.hash();
+    let kind = c.rng.below(8);
+    match kind {
+        0 => {
+            // timestamp = median (reject) / median + 1 (accept)
+            let m = median_of_parent(c, &parent);
+            let s1 = c.next_salt();
+            let old = c.builder.build(&parent, &BlockSpec { salt: s1, timestamp: Some(m), tweak: Tweak::Timestamp(m), ..spec.clone() });
+            c.bad.insert(old.hash());
+            c.submit(&old, m + 1 + FUTURE, Intent::Invalid, "ts-median");
+            let s2 = c.next_salt();
+            let ok = c.builder.build(&parent, &BlockSpec { salt: s2, timestamp: Some(m + 1), ..spec.clone() });
+            let jitter = c.rng.below(3) * 7000;
+            c.submit(&ok, m + 1 + jitter, Intent::Valid, "ts-median+1");
+            ok
+        }
+        1 => {
+            // timestamp = now + ALLOWED_FUTURE (accept) / one more ms (reject): same block, clock moved
+            c.submit(&v, v.timestamp() - FUTURE - 1, Intent::Invalid, "ts-future+1");
+            c.submit(&v, v.timestamp() - FUTURE, Intent::Valid, "ts-future");
+            v
+        }
+        2 if !c.cc.defaults && v.uncles().hashes().is_empty() => {
+            // block bytes exactly at the limit (accept) / limit + 1 (reject)
+            let size = v.data().serialized_size_without_uncle_proposals() as u64;
+            let base = pad_cellbase_witness(&v, 0);
+            let bsize = base.data().serialized_size_without_uncle_proposals() as u64;
+            let _ = size;
+            if bsize <= c.cc.max_bytes {
+                let pad = (c.cc.max_bytes - bsize) as usize;
+                let over = pad_cellbase_witness(&v, pad + 1);
+                let at = pad_cellbase_witness(&v, pad);
+                c.builder.blocks.insert(at.hash(), at.clone());
+                c.bad.insert(over.hash());
+                c.describe_all(&parent, &[&over, &at]);
+                c.submit(&over, now, Intent::Invalid, "bytes-limit+1");
+                c.submit(&at, now, Intent::Valid, "bytes-limit");
+                at
+            } else {
+                c.submit(&v, now, Intent::Valid, "plain");
+                v
+            }
+        }
+        3 => {
+            // extension of 96 bytes (accept) / 97 (reject); the root is the first 32 bytes
+            let at = v.as_advanced_builder().extension(ext_of_len(&v, 96)).build();
+            let over = v.as_advanced_builder().extension(ext_of_len(&v, 97)).build();
+            c.builder.blocks.insert(at.hash(), at.clone());
+            c.bad.insert(over.hash());
+            c.describe_all(&parent, &[&over, &at]);
+            c.submit(&over, now, Intent::Invalid, "ext-97");
+            c.submit(&at, now, Intent::Valid, "ext-96");
+            at
+        }
+        _ => {
+            c.submit(&v, now, Intent::Valid, "plain");
+            v
+        }
+    }
+}
+
+/// one single-rule violation derived from the valid block `v` (same parent)
+fn make_mutant(
+    c: &mut Case,
+    v: &BlockView,
+    ph: &BlockView,
+    too_early: &[(TransactionView, u64)],
+    expired: &[(TransactionView, u64)],
+    sib: Option<&BlockView>,
+) -> Option<(BlockView, &'static str)> {
+    let (_, _, lock) = always_success_cell();
+    let h = v.number();
+    let ep = v.epoch();
+    let max_props = c.consensus.max_block_proposals_limit() as usize;
+    let salt = c.next_salt();
+    let junk_prop = |i: u64| {
+        let mut b = [0u8; 10];
+        b[..8].copy_from_slice(&(salt * 10_000 + i).to_le_bytes());
+        b[9] = 0xee;
+        ProposalShortId::new(b)
+    };
+    let kind = c.rng.below(44);
+    let r: (BlockView, &'static str) = match kind {
+        // ---- header stage
+        0 => (v.as_advanced_builder().number(h + 1).build(), "number+1"),
+        1 => (v.as_advanced_builder().number(h - 1).build(), "number-1"),
+        2 => (v.as_advanced_builder().epoch(EpochNumberWithFraction::new_unchecked(ep.number(), ep.length(), ep.length())).build(), "epoch-index=length"),
+        3 => (v.as_advanced_builder().epoch(EpochNumberWithFraction::new_unchecked(ep.number(), 0, 0)).build(), "epoch-length-0"),
+        4 => (v.as_advanced_builder().epoch(EpochNumberWithFraction::new_unchecked(ep.number(), (ep.index() + 1) % ep.length().max(1), ep.length())).build(), "epoch-index+1"),
+        5 => (v.as_advanced_builder().epoch(EpochNumberWithFraction::new_unchecked(ep.number() + 1, ep.index(), ep.length())).build(), "epoch-number+1"),
+        6 => (v.as_advanced_builder().epoch(EpochNumberWithFraction::new_unchecked(ep.number(), ep.index(), ep.length() + 1)).build(), "epoch-length+1"),
+        // ---- non-contextual
+        7 => {
+            let mut props: Vec<ProposalShortId> = v.data().proposals().into_iter().collect();
+            let mut i = 0;
+            while props.len() <= max_props {
+                props.push(junk_prop(i));
+                i += 1;
+            }
+            if max_props > 100 && !c.rng.chance(1, 4) {
+                return None;
+            }
+            (v.as_advanced_builder().set_proposals(props).build(), "proposals-limit+1")
+        }
+        8 => (with_txs(v, { let mut t = v.transactions(); t.push(t[0].clone()); t }), "two-cellbases"),
+        9 => (with_txs(v, v.transactions().into_iter().skip(1).collect()), "no-cellbase"),
+        10 => {
+            let tx = scratch_tx(c)?;
+            (with_txs(v, { let mut t = vec![tx]; t.extend(v.transactions()); t }), "cellbase-not-first")
+        }
+        11 => (with_cellbase(v, |cb| cb.output(CellOutput::new_builder().capacity(capacity_bytes!(100)).lock(lock.clone()).build()).output_data(Bytes::new())), "cellbase-extra-output"),
+        12 => (with_cellbase(v, |cb| cb.output_data(Bytes::new())), "cellbase-extra-data"),
+        13 if h > c.consensus.finalization_delay_length() => (with_cellbase(v, |cb| cb.set_outputs_data(vec![Bytes::from(vec![1u8]).pack()])), "cellbase-data-nonempty"),
+        14 => (with_cellbase(v, |cb| cb.set_witnesses(vec![Bytes::from(vec![1u8, 2, 3]).pack()])), "cellbase-witness-garbage"),
+        15 => (with_cellbase(v, |cb| cb.set_witnesses(vec![])), "cellbase-witness-missing"),
+        16 if h > c.consensus.finalization_delay_length() => (
+            with_cellbase(v, |cb| {
+                let o = v.transactions()[0].outputs().get(0).unwrap().as_builder().type_(Some(lock.clone()).pack()).build();
+                cb.set_outputs(vec![o])
+            }),
+            "cellbase-type-script",
+        ),
+        17 if h > c.consensus.finalization_delay_length() => (
+            with_cellbase(v, |cb| {
+                let bad_lock = lock.clone().as_builder().hash_type(packed::Byte::new(0x7f)).build();
+                let o = v.transactions()[0].outputs().get(0).unwrap().as_builder().lock(bad_lock).build();
+                cb.set_outputs(vec![o])
+            }),
+            "cellbase-lock-hash-type",
+        ),
+        18 => (with_cellbase(v, |cb| cb.set_inputs(vec![CellInput::new_cellbase_input(h + 1)])), "cellbase-since+1"),
+        19 => {
+            let tx = scratch_tx(c)?;
+            (with_txs(v, { let mut t = v.transactions(); t.push(tx.clone()); t.push(tx); t }), "duplicate-tx")
+        }
+        20 => {
+            let p = junk_prop(1);
+            if max_props < 2 { return None; }
+            (v.as_advanced_builder().set_proposals(vec![p.clone(), p]).build(), "duplicate-proposal")
+        }
+        21 => (edit_raw(v, |r| r.transactions_root(Byte32::zero())), "tx-root"),
+        22 => (edit_raw(v, |r| r.proposals_hash(h256!("0x1").pack())), "proposals-hash"),
+        23 => {
+            // a transaction without outputs (TransactionError::Empty)
+            let tx = TransactionBuilder::default().input(CellInput::new(OutPoint::new(h256!("0x77").pack(), salt as u32), 0)).build();
+            (with_txs(v, { let mut t = v.transactions(); t.push(tx); t }), "tx-empty-outputs")
+        }
+        // ---- contextual
+        24 => {
+            // spends a cell that does not exist
+            let tx = spend_tx(&[(OutPoint::new(h256!("0x99").pack(), salt as u32), 10_000_000_000)], 1, 1000, salt);
+            (with_txs(v, { let mut t = v.transactions(); t.push(tx); t }), "unknown-cell")
+        }
+        25 => (v.as_advanced_builder().compact_target(v.compact_target() - 1).build(), "target-1"),
+        26 => (v.as_advanced_builder().compact_target(v.compact_target() + 1).build(), "target+1"),
+        27 => {
+            // max_uncles + 1 uncles (fresh siblings of the parent's ancestors are not needed: any headers do)
+            let max = c.consensus.max_uncles_num();
+            let mut us: Vec<UncleBlockView> = v.uncles().into_iter().collect();
+            let mut i = 0u64;
+            while us.len() <= max {
+                let u = v.as_advanced_builder().timestamp(v.timestamp() + 100 + i).number(h - 1).set_uncles(vec![]).build();
+                us.push(u.as_uncle());
+                i += 1;
+            }
+            (v.as_advanced_builder().set_uncles(us).build(), "uncles-max+1")
+        }
+        28..=35 => {
+            // uncle rules: take a valid uncle (a sibling of the parent, or of this block) and break one thing
+            if h < 2 {
+                return None;
+            }
+            let gp = ph.parent_hash();
+            let s = c.next_salt();
+            let good = c.builder.build(&gp, &BlockSpec { salt: s, ..Default::default() });
+            c.pool.push(good.clone());
+            let same_epoch = good.epoch().number() == ep.number();
+            let u = good.as_uncle();
+            let base_uncles: Vec<UncleBlockView> = vec![];
+            let mk = |us: Vec<UncleBlockView>| v.as_advanced_builder().set_uncles(us).build();
+            match kind {
+                28 => {
+                    if !same_epoch { (mk(vec![u]), "uncle-other-epoch") } else {
+                        return None;
+                    }
+                }
+                29 if same_epoch => (mk(vec![edit_uncle_raw(&u, |r| r.compact_target(Into::<packed::Uint32>::into(v.compact_target() - 1)))]), "uncle-target"),
+                30 => {
+                    // number ≥ block number: this block's own sibling
+                    let sb = sib?;
+                    (mk(vec![sb.as_uncle()]), "uncle-number=block")
+                }
+                31 if same_epoch => {
+                    // parent unknown to the chain
+                    (mk(vec![edit_uncle_raw(&u, |r| r.parent_hash(h256!("0x55").pack()))]), "uncle-parent-unknown")
+                }
+                32 if same_epoch => (mk(vec![u.clone(), u]), "uncle-twice"),
+                33 => {
+                    // a main-chain block as uncle (double inclusion), or an uncle already included by an ancestor
+                    let gpb = c.builder.block(&gp).clone();
+                    if gpb.number() == 0 || gpb.epoch().number() != ep.number() {
+                        return None;
+                    }
+                    let _ = base_uncles;
+                    (mk(vec![gpb.as_uncle()]), "uncle-on-main-chain")
+                }
+                34 if same_epoch => {
+                    let mut props = vec![];
+                    for i in 0..=(max_props as u64) {
+                        props.push(junk_prop(100 + i));
+                    }
+                    if max_props > 100 { return None; }
+                    let ub = good.as_advanced_builder().set_proposals(props).build();
+                    (mk(vec![ub.as_uncle()]), "uncle-proposals-limit+1")
+                }
+                35 if same_epoch => {
+                    if c.rng.chance(1, 2) {
+                        (mk(vec![edit_uncle_raw(&u, |r| r.proposals_hash(h256!("0x2").pack()))]), "uncle-proposals-hash")
+                    } else {
+                        let p = junk_prop(7);
+                        let ub = good.as_advanced_builder().set_proposals(vec![p.clone(), p]).build();
+                        (mk(vec![ub.as_uncle()]), "uncle-duplicate-proposal")
+                    }
+                }
+                _ => return None,
+            }
+        }
+        36 => {
+            // commit one block too early (distance w_close − 1) or one too late (w_far + 1), or never proposed
+            let pick = c.rng.below(3);
+            let tx = match pick {
+                0 => too_early.iter().find(|(_, hp)| h - hp + 1 == c.consensus.tx_proposal_window().closest()).map(|x| x.0.clone()),
+                1 => expired.iter().find(|(_, hp)| *hp != u64::MAX && h - hp == c.consensus.tx_proposal_window().farthest() + 1).map(|x| x.0.clone()),
+                _ => scratch_tx(c),
+            }?;
+            let name = match pick { 0 => "commit-w_close-1", 1 => "commit-w_far+1", _ => "commit-unproposed" };
+            (with_txs(v, { let mut t = v.transactions(); t.push(tx); t }), name)
+        }
+        37 => (edit_dao(v), "dao-bit"),
+        38 if h > c.consensus.finalization_delay_length() => {
+            let d: i64 = if c.rng.chance(1, 2) { 1 } else { -1 };
+            (
+                with_cellbase(v, |cb| {
+                    let o = v.transactions()[0].outputs().get(0).unwrap();
+                    let cap: u64 = o.capacity().unpack();
+                    cb.set_outputs(vec![o.as_builder().capacity(Capacity::shannons((cap as i64 + d) as u64)).build()])
+                }),
+                if d > 0 { "reward+1" } else { "reward-1" },
+            )
+        }
+        39 if h > c.consensus.finalization_delay_length() => (
+            with_cellbase(v, |cb| {
+                let o = v.transactions()[0].outputs().get(0).unwrap();
+                let other = lock.clone().as_builder().args(Bytes::from(vec![9u8]).pack()).build();
+                cb.set_outputs(vec![o.as_builder().lock(other).build()])
+            }),
+            "reward-lock",
+        ),
+        40 if h <= c.consensus.finalization_delay_length() => (
+            with_cellbase(v, |cb| cb.output(CellOutput::new_builder().capacity(capacity_bytes!(100)).lock(lock.clone()).build()).output_data(Bytes::new())),
+            "reward-before-finalization",
+        ),
+        41 => {
+            let k = c.rng.below(4);
+            match k {
+                0 => (v.as_advanced_builder().extension(None).build(), "ext-none"),
+                1 => (v.as_advanced_builder().extension(Some(Bytes::new().pack())).build(), "ext-empty"),
+                2 => (v.as_advanced_builder().extension(ext_of_len(v, 31)).build(), "ext-31"),
+                _ => {
+                    let mut bytes = v.extension()?.raw_data().to_vec();
+                    let i = c.rng.below(32) as usize;
+                    bytes[i] ^= 1 << c.rng.below(8);
+                    (v.as_advanced_builder().extension(Some(Bytes::from(bytes).pack())).build(), "ext-root-bit")
+                }
+            }
+        }
+        42 => (edit_raw(v, |r| r.extra_hash(h256!("0x3").pack())), "extra-hash"),
+        43 if !c.cc.defaults => {
+            // cycles: one transaction more than the block cycle limit allows
+            let room = (c.cc.max_cycles / c.cyc) as usize;
+            let have = v.transactions().len() - 1;
+            if have != room {
+                return None;
+            }
+            // an extra *proposed* transaction is needed; use a too-early one only if none … keep simple:
+            return None;
+        }
+        _ => return None,
+    };
+    if r.0.hash() == v.hash() {
+        return None;
+    }
+    Some(r)
+}
+
+fn edit_dao(v: &BlockView) -> BlockView {
+    let mut raw = v.header().dao().raw_data().to_vec();
+    raw[31] ^= 1;
+    v.as_advanced_builder().dao(Byte32::from_slice(&raw).unwrap()).build()
+}
+
+/// a lighter side branch whose first block breaks a contextual rule: stored unverified; the branch
+/// then grows until it is the heaviest → the attempt must fail as a whole
+fn side_branch(c: &mut Case) {
+    let main = c.builder.path_to(&c.tip);
+    let tip_n = main.len() as u64 - 1;
+    let back = c.rng.range(1, 3.min(tip_n - 1));
+    let fork_parent = main[(tip_n - back) as usize].clone();
+    let s = c.next_salt();
+    let kind = c.rng.below(4);
+    let fin = c.consensus.finalization_delay_length();
+    let fp_n = tip_n - back;
+    let (tweak, rule) = match kind {
+        0 if fp_n + 1 > fin => (Tweak::CellbaseCapacity(1), "side:reward+1"),
+        1 => (Tweak::Dao, "side:dao"),
+        2 => (Tweak::Extension, "side:chain-root"),
+        _ => (Tweak::NoExtension, "side:no-extension"),
+    };
+    let ts = c.builder.block(&c.tip).timestamp();
+    let s1 = c.builder.build(&fork_parent, &BlockSpec { salt: s, tweak, timestamp: Some(ts + 1), ..Default::default() });
+    c.bad.insert(s1.hash());
+    let now = ts + 10;
+    c.submit(&s1, now, Intent::Side, rule);
+    let mut prev = s1.hash();
+    let mut n = fp_n + 1;
+    while n < tip_n {
+        let s = c.next_salt();
+        let b = c.builder.build(&prev, &BlockSpec { salt: s, timestamp: Some(ts + 1 + n), ..Default::default() });
+        c.bad.insert(b.hash());
+        c.submit(&b, now + n, Intent::Side, "side:child");
+        prev = b.hash();
+        n += 1;
+    }
+    // now the heaviest: twice, from two different children
+    for _ in 0..2 {
+        let s = c.next_salt();
+        let b = c.builder.build(&prev, &BlockSpec { salt: s, timestamp: Some(ts + 2 + n), ..Default::default() });
+        c.bad.insert(b.hash());
+        c.submit(&b, now + n + 2, Intent::Doomed, rule);
+        // and a child of the refused block
+        if c.rng.chance(1, 2) {
+            let s = c.next_salt();
+            let ch = c.builder.build(&b.hash(), &BlockSpec { salt: s, timestamp: Some(ts + 3 + n), ..Default::default() });
+            c.bad.insert(ch.hash());
+            c.submit(&ch, now + n + 3, Intent::Doomed, "side:child-of-refused");
+        }
+    }
+}
+
+/// an attached block again: unchanged (→ known), and with the same header but a different body
+/// (uncles / extension are committed only through `extra_hash`, which is checked contextually)
+fn resubmit(c: &mut Case) {
+    let main = c.builder.path_to(&c.tip);
+    if main.len() < 3 {
+        return;
+    }
+    let i = c.rng.range(1, main.len() as u64 - 1) as usize;
+    let b = c.builder.block(&main[i]).clone();
+    let now = c.builder.block(&c.tip).timestamp();
+    c.submit(&b, now, Intent::Resubmit, "resubmit-same");
+    // same header, uncles dropped / extension changed
+    let variant = if !b.uncles().hashes().is_empty() {
+        b.as_advanced_builder().set_uncles(vec![]).build_unchecked()
+    } else {
+        b.as_advanced_builder().extension(ext_of_len(&b, 40)).build_unchecked()
+    };
+    assert_eq!(variant.hash(), b.hash());
+    c.out.count("resubmit-variant-body");
+    let before = c.node.store().get_block(&b.hash()).map(|x| x.data());
+    let r = c.node.controller().blocking_process_block(Arc::new(variant.clone()));
+    let after = c.node.store().get_block(&b.hash()).map(|x| x.data());
+    c.out.count(&format!("resubmit-variant:{}", match &r { Ok(true) => "ok-true", Ok(false) => "ok-false", Err(_) => "err" }));
+    if before.as_ref().map(|x| x.as_slice().to_vec()) != after.as_ref().map(|x| x.as_slice().to_vec()) {
+        c.out.oracle_fail(
+            "attached-body-replaced",
+            &format!("block {} {:#x}: re-delivering the attached block with the same header and a different body ({}) replaced the stored body", b.number(), b.hash(), if b.uncles().hashes().is_empty() { "extension" } else { "uncles" }),
+        );
+    }
+}
+
+pub fn run(opts: &Opts) {
+    let mut out = Out::new(&opts.out);
+    let base = scratch_dir(&opts.out, "c03");
+    let cyc = measure_cycles(&base);
+    if let Some(p) = &opts.replay {
+        let ops = read_replay_ops(p);
+        let mut seeds = vec![];
+        for l in &ops {
+            if l.starts_with("case ") {
+                if let Some(s) = l.split_whitespace().find_map(|t| t.strip_prefix("seed=")) {
+                    seeds.push(s.parse::<u64>().expect("seed"));
+                }
+            }
+        }
+        if seeds.is_empty() {
+            eprintln!("replay file has no `case <n> seed=<s>` line");
+            std::process::exit(2);
+        }
+        for s in seeds {
+            run_case(&mut out, s, &base, cyc, 30);
+        }
+    } else {
+        let cases = if opts.thorough() { 200 * opts.scale } else { 14 * opts.scale };
+        for i in 0..cases {
+            run_case(&mut out, opts.seed.wrapping_mul(1_000_003).wrapping_add(i), &base, cyc, 30);
+        }
+    }
+    let _ = std::fs::remove_dir_all(&base);
+    out.finish("a case = one real node + one random consensus configuration (epoch length, proposal window, median count, proposal/size/cycle limits, or all defaults) and a 30-step history; every step builds one valid block on the tip (random proposals, window-edge commits, uncles), 2-4 single-rule violations of it, sometimes the valid/invalid pair of a boundary (timestamp = median / median+1, now+15s / +1ms, size limit, extension 96/97), sometimes a lighter side branch starting with a violating block that is later made the heaviest, sometimes a re-submission of an attached block; non-trivial iff at least 6 distinct (rule, side) pairs were exercised; distinct by configuration");
 }
